@@ -152,6 +152,29 @@ def _mul(x, y):
     return x * y
 
 
+def _join_maps(a, b):
+    out = {}
+    for k in set(a) | set(b):
+        if k in a and k in b:
+            out[k] = a[k] if a[k] is b[k] else join(a[k], b[k])
+        # a key defined on one side only is a branch-local binding: dropped
+    return out
+
+
+def _find_bind(p, hid):
+    if p.get("k") == "bind" and p["hid"] == hid:
+        return p
+    for q in p.get("ps", []) or []:
+        r = _find_bind(q, hid)
+        if r:
+            return r
+    if p.get("k") in ("ref", "deref"):
+        return _find_bind(p["p"], hid)
+    if p.get("k") == "bind" and p.get("sub"):
+        return _find_bind(p["sub"], hid)
+    return None
+
+
 class Eval:
     """Evaluates HIR expressions abstractly.
 
@@ -168,6 +191,9 @@ class Eval:
         self.sym_of = sym_of or (lambda n: None)
         self.ret = None
         self.symfacts = {}     # sym -> (lo, hi) refinements valid at the current program point
+        self.cellkey = lambda n: None   # node -> key of an abstract cell (element of a tensor root)
+        self.cells = {}                 # key -> AV
+        self.some = {}                  # place name -> AV of the payload of `if let Some(x) = <place>`
         self.inv_fields = {}   # field -> AV loop/struct invariant (assumed at loop heads, re-checked after bodies)
 
     # -- float rounding
@@ -194,6 +220,9 @@ class Eval:
     def eval(self, n):
         n0 = n
         k = n.get("k")
+        ck = self.cellkey(strip(n)) if k in ("local", "index", "un", "ref") else None
+        if ck is not None:
+            return self.cells.get(ck, top("f32"))
         if k == "lit":
             return self.lit(n)
         if k == "local":
@@ -208,6 +237,9 @@ class Eval:
             b = strip(n["b"])
             if b is not None and b.get("k") == "local" and b["name"] == "self" and n["f"] in self.fields:
                 return self.fields[n["f"]]
+            pn = pretty(n)
+            if pn in self.fields:
+                return self.fields[pn]
             s = self.sym_of(n)
             t = top(self.node_ty(n))
             if s:
@@ -221,11 +253,27 @@ class Eval:
         if k == "bin":
             return self.bin(n)
         if k == "if":
-            # condition refinement is not modelled: join of both branches
-            self.eval(n["c"]) if strip(n["c"]).get("k") != "letx" else None
+            # condition refinement is not modelled: both branches are executed on copies of the state and joined
+            cnd = strip(n["c"])
+            st0 = (dict(self.env), dict(self.fields), dict(self.cells))
+            if cnd.get("k") == "letx":
+                src = pretty(strip(cnd["init"]))
+                binds = pat_binds(cnd["pat"])
+                for nm, hid in binds:
+                    self.env[hid] = self.some.get(src, top(self.c.types[_find_bind(cnd["pat"], hid)["t"]].lstrip("&")))
+            else:
+                self.eval(n["c"])
             a = self.eval(n["th"])
+            st1 = (self.env, self.fields, self.cells)
+            self.env, self.fields, self.cells = (dict(st0[0]), dict(st0[1]), dict(st0[2]))
             b = self.eval(n["el"]) if n["el"] is not None else None
-            return join(a, b) if b is not None else a
+            st2 = (self.env, self.fields, self.cells)
+            self.env, self.fields, self.cells = [_join_maps(x, y) for x, y in zip(st1, st2)]
+            if b is None:
+                return a
+            if a.ty == "()" or b.ty == "()":
+                return a
+            return join(a, b)
         if k == "mcall":
             return self.mcall(n)
         if k == "call":
@@ -289,6 +337,10 @@ class Eval:
 
     def assign(self, l, v):
         l = strip(l)
+        ck = self.cellkey(l)
+        if ck is not None:
+            self.cells[ck] = v
+            return
         if l.get("k") == "local":
             self.env[l["hid"]] = v
         elif l.get("k") == "field" and strip(l["b"]).get("k") == "local" and strip(l["b"])["name"] == "self":
@@ -566,6 +618,9 @@ class Eval:
                 lo = Fr(0) if x.lo <= 0 <= x.hi else min(abs(x.lo), abs(x.hi)) ** 2
                 hi = INF if m == INF else m * m
                 return self._fl(lo, hi, x.nan)
+            ex = args[0]
+            if x.lo >= 0 and x.hi <= 1 and ex.lo >= 1 and not x.nan:
+                return AV(Fr(0), x.hi, False, ty="f32")   # 0 <= x <= 1, n >= 1  =>  0 <= x^n <= x
             return AV(-INF, INF, True, ty="f32")
         if name == "is_nan":
             return AV(Fr(0), Fr(1), ty="bool")
